@@ -188,6 +188,10 @@ def gen_cases(run):
                           solver=['solve', 'cholesky', 'lu'][k % 3], lam=1e-2, iters=0, return_best=bool(k % 2), early=False, mult=1.1,
                           adaptive=(k % 2 == 0), n=[2100, 2600][k % 2], d=3, outputs=1, pos='final', scores=None, bandwidth=3.0, xscale=1.0,
                           dseed=r.randint(0, 10 ** 6), mbs=None, agop_best=False, refit=None, maximize=False))
+    # beyond the 5,000-row sub-sample of the median heuristic: the bandwidth the coefficients were solved with is the stored one
+    cases.append(dict(family='large-leaf', kernel=list(KERNELS[0]), q=1.0, diag=False, solver='solve', lam=1e-2, iters=0, return_best=True,
+                      early=False, mult=1.1, adaptive=True, n=5300, d=3, outputs=1, pos='final', scores=None, bandwidth=3.0, xscale=1.0,
+                      dseed=r.randint(0, 10 ** 6), mbs=None, agop_best=False, refit=None, maximize=False))
     for c in cases:  # lpq needs q <= p; fix up
         if c['kernel'][0] == 'lpq':
             c['q'] = min(c['q'], c['kernel'][1]['norm_p'])
